@@ -537,6 +537,25 @@ fn expression_inner(rng: &mut Rng, cfg: &GenCfg) -> String {
         let t = if rng.below(4) < cfg.likely_true { likely_true_test(rng) } else { filler_test(rng) };
         leaves.push(Node::Leaf(t, false));
     }
+    // a burst: two to five tests of ONE family with different arguments (several pools, several
+    // attributes, several owners, several sizes ...): what a set of "things of this kind seen in
+    // the expression" needs before its order can show
+    if rng.chance(1, 6) {
+        let family = rng.below(8);
+        for i in 0..rng.range(2, 5) {
+            let t = match family {
+                0 => format!("-pool {}", ["fast", "ssd0", "arch_1", "slow", "flash2", "p9"][(i as usize + rng.usize_below(3)) % 6]),
+                1 => format!("-xattr {}", ["user.tag", "trusted.lov", "user.k2", "user.owner", "security.x", "user.z"][(i as usize + rng.usize_below(3)) % 6]),
+                2 => format!("-xattr-match {} {}", ["user.tag", "user.k2", "user.owner", "user.z"][(i as usize) % 4], ["v1", "blue", "v*", "x?"][rng.usize_below(4)]),
+                3 => format!("-uid {}", 1000 + i * 7 + rng.below(3)),
+                4 => format!("-gid {}", 100 + i * 3 + rng.below(2)),
+                5 => format!("-size {}{}", [1u64, 2, 4, 8, 512][(i as usize) % 5], ["k", "M", "c", "b", "G"][rng.usize_below(5)]),
+                6 => format!("-type {}", ["f", "d", "l", "p", "s"][(i as usize) % 5]),
+                _ => format!("-links {}", 1 + i),
+            };
+            leaves.push(Node::Leaf(t, false));
+        }
+    }
     rng.shuffle(&mut leaves);
     // actions are inserted at random positions but keep their relative order
     for kind in &cfg.actions {
@@ -859,9 +878,10 @@ pub fn near_miss(rng: &mut Rng, text: &str) -> Option<String> {
 
 /// A per-user (or per-group, per-type) report: one output file per value, `n` distinct files in one
 /// expression — more than a process may be allowed to open (RLIMIT_NOFILE can be as low as a few
-/// dozen), more destinations than one hex digit of tag can number.
+/// dozen), more destinations than one hex digit of tag can number, more than a fixed pool of 64 or
+/// 128 locks or slots can serve one each.
 pub fn report_expression(rng: &mut Rng) -> String {
-    let n = *rng.pick(&[9usize, 17, 18, 24, 33, 49, 65]);
+    let n = *rng.pick(&[9usize, 17, 18, 24, 33, 49, 65, 65, 130, 257]);
     let (test, stem) = *rng.pick(&[("-uid", "user"), ("-gid", "group"), ("-links", "links"), ("-stripe-count", "stripes")]);
     let action = *rng.pick(&["-fprint", "-fprint", "-fprint0"]);
     let mut parts = vec![];
